@@ -902,6 +902,7 @@ func cmdRepl(args []string) int {
 	f := ParseFlags(args)
 	out := NewOut(f.Out)
 	defer out.Close()
+	broken := 0 // violations other than the recorded finding: a broken tree makes scripts slow (waits that never end)
 	one := func(c replCase) {
 		w, verdict := runRepl(c)
 		w.mu.Lock()
@@ -926,6 +927,9 @@ func cmdRepl(args []string) int {
 			if !seen[tag] {
 				seen[tag] = true
 				out.Violation("C33", cs, v)
+				if tag != "[late-store-after-reset]" {
+					broken++
+				}
 			}
 		}
 	}
@@ -936,7 +940,7 @@ func cmdRepl(args []string) int {
 		return 0
 	}
 	r := NewRng(f.Seed)
-	for i := 0; i < f.N; i++ {
+	for i := 0; i < f.N && broken < 5; i++ {
 		one(genRepl(r, i))
 	}
 	return 0
